@@ -391,7 +391,10 @@ pub fn run(sink: &mut Sink, thorough: bool, seed: u64) {
         let p = gen_prog_badhint(&mut r, d);
         let c = Case::new(&p);
         emit_serbufx(sink, &c, None);
-        emit_serbufx(sink, &c, Some(*r.pick(&INDENTS)));
+        // pretty + wrong hint can underflow `current_indent` (a panic here: overflow checks are on); when the program
+        // also has a bad key, which of the two comes first is not an observable the model reports — compact only then
+        let ind = *r.pick(&INDENTS);
+        if !obs_serc(&p).starts_with("ERR:") { emit_serbufx(sink, &c, Some(ind)); }
     }
     // (c) Display / to_string of Value
     for v in disp_corpus() { emit_disp(sink, &v, "fixed"); }
